@@ -1,5 +1,6 @@
 import Xo.Lemmas.LayoutRT
 import Xo.Lemmas.RefGraphOps
+import Xo.Lemmas.RefGraphX
 /-! C03 — an object never writes outside the bytes reserved for it (property theorems only).
 Reference-free grammar (scalars, strings incl. capacity form, static and dynamic structs, N-D arrays of static or dynamic
 items, any axis order), nested to any depth; any buffer image `m`, any placement `off` with room. -/
@@ -201,5 +202,31 @@ theorem C03_ref_ops_disjoint (u : RG.Univ) (hu : RG.UWF u) (s : RG.St) (hi : RG.
   have hm := h.mem
   unfold Alloc.Buf.MemOK at hm
   omega
+
+/-- … and when the object is constructed in ANOTHER buffer from an existing one (`Cls(h, _buffer=other)`, all it refers to is
+duplicated there): the source buffer is not written at all (its state is not even an output), and in the destination every region
+that was live before - node or raw allocation - keeps every byte, however many nodes the copy creates and however often the
+destination has to grow for them; afterwards all live regions of the destination, old and new, are pairwise disjoint and inside the
+storage -/
+theorem C03_copy_between_buffers_frame (u : RG.Univ) (hu : RG.UWF u) (fuel : Nat) (p : RG.St2) (ha : RG.Inv u p.a) (hb : RG.Inv u p.b)
+    (h : Nat) (hcap : (RG.step2 u fuel p (.copyAB h)).b.b.a.capacity < 2 ^ 62) :
+    (RG.step2 u fuel p (.copyAB h)).a = p.a ∧
+    (∀ e ∈ p.b.live, ∀ i, e.addr ≤ i → i < e.addr + e.size → (RG.step2 u fuel p (.copyAB h)).b.b.mem[i]? = p.b.b.mem[i]?) ∧
+    (RG.regions (RG.step2 u fuel p (.copyAB h)).b).Pairwise Alloc.Disjoint ∧
+    ∀ r ∈ RG.regions (RG.step2 u fuel p (.copyAB h)).b, r.1 + r.2 ≤ (RG.step2 u fuel p (.copyAB h)).b.b.mem.length := by
+  have hinv := (RG.step2_inv hu ha hb (.copyAB h) (by simpa [RG.step2] using ha.cap) hcap).2
+  refine ⟨rfl, ?_, hinv.a.disj, fun r hr => ?_⟩
+  · simp only [RG.step2] at hcap ⊢
+    cases hx : RG.xcopyAt u fuel p.a p.b h with
+    | none => intro e _ i _ _; rfl
+    | some r =>
+      obtain ⟨d', o⟩ := r
+      rw [hx] at hcap
+      simp only [Option.map_some, Option.getD_some] at hcap ⊢
+      exact RG.xcopyAt_frame hu ha hb hx hcap
+  · have := hinv.a.inb r hr
+    have hm := hinv.mem
+    unfold Alloc.Buf.MemOK at hm
+    omega
 
 end Lay
